@@ -70,6 +70,7 @@ def run(idx: Index, rep: Report, tier: str):
     check_ctor_summaries(idx, rep)
     check_metadata_readers(idx, rep)
     check_width_propagation(idx, rep)
+    check_class_invariant(idx, rep, tier)
     rep.stats.update({"alias_" + k: v for k, v in an.stats.items()})
 
 
@@ -1125,3 +1126,182 @@ def check_width_propagation(idx: Index, rep: Report):
         ok = bool(rets) and norm(rets[0].value) == "Circuit(gates) if remove_qubits else Circuit(gates, n_qubits=circuit.width)"
         rep.decide(ok, rule, f, rets[0] if rets else f.node, text=f"{fn}: width kept unless remove_qubits", what="a simplification pass keeps the circuit width unless asked to drop unused qubits",
                    reason=f"returns {norm(rets[0].value) if rets else '?'}")
+
+
+# ---------------------------------------------------------------------------------------------------
+# class invariant over short histories: the repository's own Circuit and Gate classes folded
+# ---------------------------------------------------------------------------------------------------
+def check_class_invariant(idx: Index, rep: Report, tier: str):
+    """Circuit and Gate are folded as classes (constructors, properties, methods interpreted from their syntax trees).  Starting from a
+    handful of small circuits - with and without a fixed number of qubits, with gaps in the indices, with variational gates - every
+    operation of the class and of the module's transformation functions is applied, then every *reading* operation (copy, inverse, + with
+    itself, * 2, width, size, counts, depth) is applied to the result.  After each step the summaries must equal the values recomputed
+    from the gate list, the variational view must hold the very gate objects of the gate list, and no reading operation may raise."""
+    rule = "K2.class-invariant"
+    import copy as _copy
+    import math
+    from ..consteval import Folder, FuncVal, Raised, Rec, Undecidable
+    from ..rules import circuitsem as cs
+    res = cs.module_resolver(idx, CIRCUIT)
+    Circ = res("Circuit")
+    GateCls = cs.module_resolver(idx, GATE)("Gate")
+    if Circ is None or GateCls is None:
+        raise AnalysisError("Circuit / Gate classes not resolvable")
+
+    def folder():
+        fo = cs.make_folder(idx, CIRCUIT, ctors={"Gate": None})
+        fo.env["np.pi"] = math.pi
+        fo.env["pi"] = math.pi
+        return fo
+
+    def mk_gate(name, target, control=None, parameter="", is_variational=False):
+        fo = cs.make_folder(idx, GATE, ctors={"Gate": None})
+        fo.env["pi"] = math.pi
+        return fo.instantiate(GateCls, [name, target], {"control": control, "parameter": parameter, "is_variational": is_variational})
+
+    def mk_circ(gates, n_qubits=None):
+        return folder().instantiate(Circ, [list(gates)], {"n_qubits": n_qubits})
+
+    def call(obj, meth, *args, **kwargs):
+        fo = folder()
+        cv = obj.cls_val
+        if meth in cv.properties:
+            return fo.call_funcval(FuncVal(cv.properties[meth], bound_self=obj, home=cv.method_home.get(meth, cv.home)), [], {})
+        return fo.call_funcval(FuncVal(cv.methods[meth], bound_self=obj, home=cv.method_home.get(meth, cv.home)), list(args), kwargs)
+
+    def func(name, *args, **kwargs):
+        f = idx.function(f"{CIRCUIT}::{name}")
+        return folder().call_funcval(FuncVal(f.node, home=CIRCUIT), list(args), kwargs)
+
+    def recompute(c: Rec):
+        gs = c.fields["_gates"]
+        used = set()
+        counts, arity = {}, {}
+        for g in gs:
+            qs = list(g.fields["target"]) + list(g.fields["control"] or [])
+            used |= set(qs)
+            counts[g.fields["name"]] = counts.get(g.fields["name"], 0) + 1
+            arity[len(qs)] = arity.get(len(qs), 0) + 1
+        return used, counts, arity
+
+    def violations(c: Rec) -> List[str]:
+        out = []
+        used, counts, arity = recompute(c)
+        fixed = c.fields["_qubits_simulated"]
+        try:
+            width, size = call(c, "width"), call(c, "size")
+            want_w = max([fixed or 0] + [max(used) + 1 if used else 0]) if fixed else (max(used) + 1 if used else 0)
+            if width < (max(used) + 1 if used else 0):
+                out.append(f"width {width} does not cover qubit {max(used)}")
+            if not fixed and width != (max(used) + 1 if used else 0):
+                out.append(f"width {width} of a circuit without a fixed number of qubits differs from the highest used qubit + 1 = {max(used) + 1 if used else 0}")
+            if fixed and width != fixed and width < fixed:
+                out.append(f"width {width} below the fixed number of qubits {fixed}")
+            if fixed is not None and fixed and used and max(used) >= fixed:
+                out.append(f"fixed number of qubits {fixed} does not cover qubit {max(used)} (copy / inverse / repetition will be refused)")
+            if size != len(c.fields["_gates"]):
+                out.append(f"size {size} != {len(c.fields['_gates'])} gates")
+            if dict(call(c, "counts")) != counts:
+                out.append(f"counts {dict(call(c, 'counts'))} != recomputed {counts}")
+            if dict(call(c, "counts_n_qubit")) != arity:
+                out.append(f"per-arity counts {dict(call(c, 'counts_n_qubit'))} != recomputed {arity}")
+            var = [g for g in c.fields["_gates"] if g.fields["is_variational"]]
+            vv = c.fields["_variational_gates"]
+            if len(vv) != len(var) or any(a is not b for a, b in zip(vv, var)):
+                out.append("the variational view does not hold the variational gate objects of the gate list, in order")
+            if bool(call(c, "is_variational")) != bool(var):
+                out.append("variational flag differs from the gate list")
+            if bool(call(c, "is_mixed_state")) != any(n in counts for n in ("MEASURE", "CMEASURE")):
+                out.append("mixed-state flag differs from the gate list")
+            if not used <= set(c.fields["_qubit_indices"]):
+                out.append(f"qubit index set {sorted(c.fields['_qubit_indices'])} misses used qubits {sorted(used)}")
+        except Raised as e:
+            out.append(f"reading a summary raises {e.exc_type}")
+        return out
+
+    def sig(c: Rec):
+        return [(g.fields["name"], tuple(g.fields["target"]), tuple(g.fields["control"] or ()), g.fields["parameter"], g.fields["is_variational"]) for g in c.fields["_gates"]], \
+            c.fields["_qubits_simulated"], tuple(sorted(c.fields["_qubit_indices"]))
+
+    G = mk_gate
+    starts = {
+        "two qubits": lambda: mk_circ([G("H", 0), G("CNOT", 1, 0), G("RZ", 1, parameter=0.3)]),
+        "gap in the indices": lambda: mk_circ([G("X", 0), G("CNOT", 3, 0), G("RY", 5, parameter=0.2, is_variational=True)]),
+        "fixed number of qubits larger than used": lambda: mk_circ([G("H", 1), G("RZ", 1, parameter=0.1, is_variational=True), G("CNOT", 2, 1)], n_qubits=5),
+        "unentangled parts": lambda: mk_circ([G("X", 0), G("X", 0), G("H", 2), G("CNOT", 3, 2), G("RZ", 2, parameter=1e-5)]),
+        "with a measurement": lambda: mk_circ([G("H", 0), G("MEASURE", 0), G("X", 1)]),
+        "empty, fixed": lambda: mk_circ([], n_qubits=2),
+    }
+    ops = {
+        "add_gate": lambda c: (call(c, "add_gate", G("CRZ", 1, 0, 0.4, True)), c)[1],
+        "c + c": lambda c: folder().binop(ast.Add(), c, c, None),
+        "c * 2": lambda c: folder().binop(ast.Mult(), c, 2, None),
+        "copy": lambda c: call(c, "copy"),
+        "inverse": lambda c: call(c, "inverse"),
+        "trim_qubits": lambda c: (call(c, "trim_qubits"), c)[1],
+        "reindex_qubits (shifted up)": lambda c: (call(c, "reindex_qubits", [q + 2 for q in range(len(c.fields["_qubit_indices"]))]), c)[1],
+        "reindex_qubits (moved beyond the old register)": lambda c: (call(c, "reindex_qubits", [q + len(c.fields["_qubit_indices"]) + 1 for q in range(len(c.fields["_qubit_indices"]))]), c)[1],
+        "reindex_qubits (reversed)": lambda c: (call(c, "reindex_qubits", list(range(len(c.fields["_qubit_indices"])))[::-1]), c)[1],
+        "split": lambda c: call(c, "split"),
+        "split(trim_qubits=False)": lambda c: call(c, "split", trim_qubits=False),
+        "stack(c, c)": lambda c: func("stack", c, c),
+        "remove_small_rotations": lambda c: (call(c, "remove_small_rotations"), c)[1],
+        "remove_redundant_gates": lambda c: (call(c, "remove_redundant_gates"), c)[1],
+        "merge_rotations": lambda c: (call(c, "merge_rotations"), c)[1],
+        "remove_small_rotations(remove_qubits=True)": lambda c: (call(c, "remove_small_rotations", remove_qubits=True), c)[1],
+    }
+    readers = {
+        "copy": lambda c: call(c, "copy"), "inverse": lambda c: call(c, "inverse"), "c + c": lambda c: folder().binop(ast.Add(), c, c, None),
+        "c * 2": lambda c: folder().binop(ast.Mult(), c, 2, None), "depth": lambda c: call(c, "depth"), "split": lambda c: call(c, "split"),
+        "stack(c, c)": lambda c: func("stack", c, c),
+    }
+    n = 0
+    for sname, start in starts.items():
+        for oname, op in ops.items():
+            if sname == "with a measurement" and oname in ("inverse",):
+                continue                                         # measurements are not invertible: refusal is the documented behaviour
+            label = f"{sname}: {oname}"
+            try:
+                c0 = start()
+                bad = violations(c0)
+                if bad:
+                    n += 1
+                    rep.violation(rule, (CIRCUIT, "Circuit"), None, text=f"{sname}: construction from a gate list",
+                                  what="a circuit built from a gate list reports the summaries of that list", reason="; ".join(sorted(set(bad))[:3]))
+                    break
+                try:
+                    out = op(c0)
+                except Raised as e:
+                    n += 1
+                    rep.violation(rule, (CIRCUIT, "Circuit"), None, text=label, what="every operation applies to every well-formed circuit", reason=f"raises {e.exc_type}")
+                    continue
+                results = out if isinstance(out, list) else [out]
+                problems = []
+                for r in results + ([c0] if c0 not in results else []):
+                    problems += violations(r)
+                # reading operations on the result: must not raise, must not change it, and their own result must satisfy the invariant
+                for r in results:
+                    for rname, rd in readers.items():
+                        if any(g.fields["name"] in ("MEASURE", "CMEASURE") for g in r.fields["_gates"]) and rname == "inverse":
+                            continue
+                        before = sig(r)
+                        try:
+                            rr = rd(r)
+                        except Raised as e:
+                            problems.append(f"then {rname} raises {e.exc_type}")
+                            continue
+                        if sig(r) != before:
+                            problems.append(f"then {rname} changes the circuit it reads")
+                        for x in (rr if isinstance(rr, list) else [rr]):
+                            if isinstance(x, Rec):
+                                problems += [f"then {rname}: {p}" for p in violations(x)]
+            except Undecidable as e:
+                raise AnalysisError(f"class-invariant fold not possible for {label}: {e}")
+            n += 1
+            uniq = sorted(set(problems))
+            rep.decide(not uniq, rule, (CIRCUIT, "Circuit"), None, text=label,
+                       what="after the operation, and after any reading operation on its result, width / size / counts / flags equal the values recomputed from the gate list, "
+                            "the variational view holds the gate objects of the list, a fixed number of qubits covers every gate, and reading operations neither raise nor modify",
+                       reason="; ".join(uniq[:3]))
+    if not rep.has_unlisted_violations():
+        rep.floor("class-invariant histories folded", n, 60)
